@@ -200,6 +200,25 @@ PROPS["C19"] = {
 }
 
 
+PROPS["C18"] = {
+    "exhaustive": [
+        {"spec": "KeyspaceTheorems.tla", "cfg": "KeyspaceTheorems_quick.cfg"},
+        {"spec": "KeyspaceTheorems.tla", "cfg": "KeyspaceTheorems_thorough.cfg", "tier": "thorough", "timeout": 3000},
+        {"spec": "KeyspaceTheorems.tla", "cfg": "KeyspaceTheorems_neg.cfg", "expect": "violation"},
+    ],
+    "drivers": [{"test": "TestVerifKeyspace", "pkg": "./provider/internal/keyspace", "overlay": "keyspace", "cwd": "/repo",
+                 "trace_spec": "KeyspaceTrace.tla", "trace_cfg": "KeyspaceTrace.cfg", "inv_cfg": {"C18": "KeyspaceTrace_C18.cfg"},
+                 "val_timeout": 3000}],
+    "assumptions": [
+        "the driver is compiled into package keyspace with go test -overlay (add-only file)",
+        "generic trie functions are exercised on bit-string tries directly; peer ids / multihashes are real values chosen one per 4-bit identifier prefix, so their XOR order is decided within the projected bits",
+        "NextNonEmptyLeaf is only called with a key of the trie or a key overlapping none of them (its callers' precondition; a proper prefix of a trie key panics and is not passed)",
+        "ShortestCoveredPrefix: when every peer matches the whole target the function reports nothing covered (documented edge, encoded in the definition)",
+    ],
+    "explanation": "Keyspace.tla gives the set-theoretic definitions (k-nearest allocation, minimal region partition, key assignment, gaps, subtraction, coalescing, cyclic next, prune, prefix / subtrie lookup, coverage, shortest covered prefix); KeyspaceTheorems.tla checks sanity theorems of the definitions by enumeration; the real functions are called on every prefix-free set / key subset of a 2-bit (thorough: 3-bit) space and on random 4-bit instances, and TLC evaluates the definitions on every recorded call.",
+}
+
+
 def overlay_file(scratch, name):
     """Writes the -overlay json for an internal-package driver (add-only mappings)."""
     p = scratch.path("overlay-%s.json" % name)
@@ -571,6 +590,48 @@ def mut_c19_reprov(run):
     return None
 
 
+def _ks(run, f):
+    return len(run) > 1 and run[1].get("f") == f
+
+
+def mut_c18_alloc(run):
+    if not _ks(run, "alloc"):
+        return None
+    r = copy.deepcopy(run)
+    for o in r[1]["out"]:
+        if o["items"]:
+            o["items"] = o["items"][1:]
+            return r
+    return None
+
+
+def mut_c18_gaps(run):
+    if not _ks(run, "gaps") or not run[1]["out"]:
+        return None
+    r = copy.deepcopy(run)
+    r[1]["out"] = r[1]["out"][1:]
+    return r
+
+
+def mut_c18_regions(run):
+    if not _ks(run, "regions") or len(run[1]["out"]) < 2:
+        return None
+    r = copy.deepcopy(run)
+    r[1]["out"] = r[1]["out"][1:]
+    return r
+
+
+def mut_c18_next(run):
+    if not _ks(run, "next") or len(run[1]["tr"]) < 3 or not run[1]["out"]:
+        return None
+    r = copy.deepcopy(run)
+    others = [x for x in r[1]["tr"] if x != r[1]["out"][0] and x != r[1]["k"]]
+    if not others:
+        return None
+    r[1]["out"] = [others[0]]
+    return r
+
+
 MUTATIONS = {
     "C01": [mut_c01_unsorted, mut_c01_drop_nearest, mut_c01_resp_event],
     "C02": [mut_c02_unasked],
@@ -580,6 +641,7 @@ MUTATIONS = {
     "C08": [mut_c08_unnamed, mut_c08_dup],
     "C05": [mut_c05_downgrade, mut_c05_invalid_stored, mut_c05_fresh_deleted, mut_c05_stale_read],
     "C07": [mut_c07_missing, mut_c07_stranger, mut_c07_afterclose],
+    "C18": [mut_c18_alloc, mut_c18_gaps, mut_c18_regions, mut_c18_next],
     "C19": [mut_c19_order, mut_c19_lostkey, mut_c19_deq, mut_c19_reprov],
     "C12": [mut_c12_stranger, mut_c12_self, mut_c12_noevict, mut_c12_lost_refresh],
 }
